@@ -124,7 +124,7 @@ def t_text_ambiguous(t, m):
 def build_case(data):
     t = Tape(data)
     sysm = t.pick(['en', 'en', 'ja'])
-    mc = gen_cat.t_cat(t, sysm, depth=4, bar=True)
+    mc = gen_cat.t_cat(t, sysm, depth=4, bar=True, exotic=True)
     variants = [gen_cat.t_text(t, mc, True, 2) for _ in range(3)]
     amb = gen_cat.ambiguous_texts(mc)[:4]
     a = t_text_ambiguous(t, mc)
